@@ -248,6 +248,53 @@ static void h_op(void)
     else h_out("ok %d", esl_abc_IExpectScore(A, x, sce, pe));
     free(sc); free(sce); if (p) free(p); if (pe) free(pe);
   }
+  else if (!strcmp(op, "dscvec") || !strcmp(op, "dexpvec")) {
+    /* esl_abc_DAvgScVec / DExpectScVec: sc has exactly Kp entries */
+    double *sc, *p = NULL, *pe = NULL; int nsc = parse_dlist(h_arg("sc"), &sc), np = 0, i; char *b = NULL; size_t cap = 0, len = 0; int status;
+    double *sce = exact(sc, sizeof(double) * (size_t) nsc);
+    if (nsc != A->Kp) { free(sc); free(sce); h_out("bad-op"); return; }
+    if (h_arg("p")) { np = parse_dlist(h_arg("p"), &p); pe = exact(p, sizeof(double) * (size_t) np); }
+    status = !strcmp(op, "dscvec") ? esl_abc_DAvgScVec(A, sce) : esl_abc_DExpectScVec(A, sce, pe);
+    b = bufcat(b, &cap, &len, h_status(status)); b = bufcat(b, &cap, &len, " ");
+    for (i = 0; i < nsc; i++) { if (i) b = bufcat(b, &cap, &len, ","); b = bufcat(b, &cap, &len, dnum(sce[i])); }
+    h_out("%s", b); free(b); free(sc); free(sce); if (p) free(p); if (pe) free(pe);
+  }
+  else if (!strcmp(op, "fscvec") || !strcmp(op, "fexpvec")) {
+    float *sc, *p = NULL, *pe = NULL; int nsc = parse_flist(h_arg("sc"), &sc), np = 0, i; char *b = NULL; size_t cap = 0, len = 0; int status;
+    float *sce = exact(sc, sizeof(float) * (size_t) nsc);
+    if (nsc != A->Kp) { free(sc); free(sce); h_out("bad-op"); return; }
+    if (h_arg("p")) { np = parse_flist(h_arg("p"), &p); pe = exact(p, sizeof(float) * (size_t) np); }
+    status = !strcmp(op, "fscvec") ? esl_abc_FAvgScVec(A, sce) : esl_abc_FExpectScVec(A, sce, pe);
+    b = bufcat(b, &cap, &len, h_status(status)); b = bufcat(b, &cap, &len, " ");
+    for (i = 0; i < nsc; i++) { if (i) b = bufcat(b, &cap, &len, ","); b = bufcat(b, &cap, &len, fnum(sce[i])); }
+    h_out("%s", b); free(b); free(sc); free(sce); if (p) free(p); if (pe) free(pe);
+  }
+  else if (!strcmp(op, "iscvec") || !strcmp(op, "iexpvec")) {
+    int *sc; float *p = NULL, *pe = NULL; int nsc = parse_ilist(h_arg("sc"), &sc), np = 0, i; char *b = NULL; size_t cap = 0, len = 0; int status; char tmp[32];
+    int *sce = exact(sc, sizeof(int) * (size_t) nsc);
+    if (nsc != A->Kp) { free(sc); free(sce); h_out("bad-op"); return; }
+    if (h_arg("p")) { np = parse_flist(h_arg("p"), &p); pe = exact(p, sizeof(float) * (size_t) np); }
+    status = !strcmp(op, "iscvec") ? esl_abc_IAvgScVec(A, sce) : esl_abc_IExpectScVec(A, sce, pe);
+    b = bufcat(b, &cap, &len, h_status(status)); b = bufcat(b, &cap, &len, " ");
+    for (i = 0; i < nsc; i++) { sprintf(tmp, "%s%d", i ? "," : "", sce[i]); b = bufcat(b, &cap, &len, tmp); }
+    h_out("%s", b); free(b); free(sc); free(sce); if (p) free(p); if (pe) free(pe);
+  }
+  else if (!strcmp(op, "guess")) {
+    /* esl_abc_GuessAlphabet on 26 letter counts */
+    int64_t ct[26]; int i = 0, type = -1, status; const char *cs = h_arg("ct"); char *dup = strdup(cs ? cs : ""), *tok, *sv;
+    memset(ct, 0, sizeof(ct));
+    for (tok = strtok_r(dup, ",", &sv); tok && i < 26; tok = strtok_r(NULL, ",", &sv)) ct[i++] = strtoll(tok, NULL, 10);
+    free(dup);
+    status = esl_abc_GuessAlphabet(ct, &type);
+    h_out("%s type=%d", h_status(status), type);
+  }
+  else if (!strcmp(op, "validateseq")) {
+    unsigned char *s = h_unhex(h_arg("hex") ? h_arg("hex") : "-", &n); char errbuf[eslERRBUFSIZE];
+    char *cp = exact(s, (size_t) n + 1);
+    int status = esl_abc_ValidateSeq(h_argi("noabc", 0) ? NULL : A, cp, n, errbuf);
+    h_out("%s %s", h_status(status), errbuf[0] ? h_hex(errbuf, (int64_t) strlen(errbuf)) : "-");
+    free(cp); free(s);
+  }
   else if (!strcmp(op, "match")) {
     double *p = NULL, *pe = NULL; int np = 0;
     if (h_arg("p")) { np = parse_dlist(h_arg("p"), &p); pe = exact(p, sizeof(double) * (size_t) np); }
